@@ -37,6 +37,8 @@ import (
 )
 
 const (
+	probeChunk = 1024 // chunk size of the remote blob; a probe reads 4 bytes of a chunk nobody has read yet
+	probeFirst = 4
 	nimgs   = 2
 	nlayers = 3
 	nnames  = nimgs * nlayers // name = img*nlayers + layer
@@ -50,6 +52,7 @@ type Op struct {
 	Scs [][]bool `json:"scs,omitempty"` // mount: scripts of the target and of the neighbours (in manifest order)
 	Ok1 bool     `json:"ok1,omitempty"`
 	Ok2 bool     `json:"ok2,omitempty"`
+	Rf  string   `json:"rf,omitempty"` // check: what the registry answers to the Refresh: ok | err | size | content
 }
 
 type Case struct {
@@ -60,6 +63,7 @@ type Case struct {
 
 var (
 	blobs   [nlayers][]byte
+	wrong   [nlayers][3][]byte // per layer: 0 = the blob, 1 = a blob of another size, 2 = same size and other content
 	digests [nlayers]digest.Digest
 	files   [nlayers][]byte
 )
@@ -67,7 +71,10 @@ var (
 func buildBlobs() {
 	for i := 0; i < nlayers; i++ {
 		files[i] = []byte(fmt.Sprintf("layer-%d:0123456789abcdefghijklmnopqrstuvwxyz;", i))
-		pad := bytes.Repeat([]byte{byte(i), 1, 2, 3, 4, 5, 6, 7}, 1024) // never read: keeps FetchedSize < Size, so Check always checks
+		pad := make([]byte, 96*1024)
+		for j := range pad {
+			pad[j] = byte(j*7 + j/251 + i)
+		} // never read: keeps FetchedSize < Size, so Check always checks
 		var buf bytes.Buffer
 		tw := tar.NewWriter(&buf)
 		tw.WriteHeader(&tar.Header{Typeflag: tar.TypeReg, Name: "a.txt", Mode: 0644, Size: int64(len(files[i]))})
@@ -76,7 +83,7 @@ func buildBlobs() {
 		tw.Write(pad)
 		tw.Close()
 		t := buf.Bytes()
-		b, err := estargz.Build(io.NewSectionReader(bytes.NewReader(t), 0, int64(len(t))), estargz.WithChunkSize(4096), estargz.WithCompressionLevel(0))
+		b, err := estargz.Build(io.NewSectionReader(bytes.NewReader(t), 0, int64(len(t))), estargz.WithChunkSize(8192), estargz.WithCompressionLevel(0))
 		if err != nil {
 			panic(err)
 		}
@@ -86,6 +93,13 @@ func buildBlobs() {
 		}
 		b.Close()
 		digests[i] = digest.FromBytes(blobs[i])
+		other := make([]byte, len(blobs[i]))
+		for j, c := range blobs[i] {
+			other[j] = c ^ 0x5a
+		}
+		wrong[i][0] = blobs[i]
+		wrong[i][2] = other
+		wrong[i][1] = append(append([]byte{}, other...), bytes.Repeat([]byte{0xee}, 777)...)
 	}
 }
 
@@ -105,6 +119,9 @@ type machine struct {
 	mu       sync.Mutex
 	scripts  map[int][]bool // per name: outcomes of the next external calls
 	curImg   int            // image of the operation in progress (the registry fake sees only the digest)
+	rf       string         // answer of the registry to the Refresh of the Check in progress
+	probeK   map[int]int    // per name: next never-read chunk of the blob
+	tainted  map[int]bool   // an other-content registry was accepted for this name
 	byGoid   map[uint64]int // goroutine -> name
 	openMeta int
 	mounted  map[int]int // mountpoint -> name (harness bookkeeping for the oracle)
@@ -153,10 +170,11 @@ func (t *trackedReader) Close() error {
 type fetcher struct {
 	m    *machine
 	name int
+	src  int
 }
 
 func (f *fetcher) Fetch(ctx context.Context, off int64, size int64) (io.ReadCloser, error) {
-	b := blobs[f.name%nlayers]
+	b := wrong[f.name%nlayers][f.src]
 	if off < 0 || off+size > int64(len(b)) {
 		return nil, fmt.Errorf("out of range")
 	}
@@ -183,11 +201,19 @@ func (h *handler) Handle(ctx context.Context, desc ocispec.Descriptor) (remote.F
 	h.m.mu.Lock()
 	name := h.m.curImg*nlayers + l
 	h.m.byGoid[goid()] = name
+	rf := h.m.rf
 	h.m.mu.Unlock()
+	if rf != "" { // the Refresh of a Check made by the harness
+		if rf == "err" {
+			return nil, 0, fmt.Errorf("registry failure")
+		}
+		src := map[string]int{"ok": 0, "size": 1, "content": 2}[rf]
+		return &fetcher{h.m, name, src}, int64(len(wrong[l][src])), nil
+	}
 	if !h.m.next(name) {
 		return nil, 0, fmt.Errorf("registry failure")
 	}
-	return &fetcher{h.m, name}, int64(len(blobs[l])), nil
+	return &fetcher{h.m, name, 0}, int64(len(blobs[l])), nil
 }
 
 func failingHosts(reference.Spec) ([]docker.RegistryHost, error) {
@@ -219,7 +245,7 @@ func newMachine() *machine {
 	if err != nil {
 		panic(err)
 	}
-	m := &machine{root: root, scripts: map[int][]bool{}, byGoid: map[uint64]int{}, mounted: map[int]int{}, stats: map[string]int{}}
+	m := &machine{root: root, scripts: map[int][]bool{}, byGoid: map[uint64]int{}, probeK: map[int]int{}, tainted: map[int]bool{}, mounted: map[int]int{}, stats: map[string]int{}}
 	store := func(sr *io.SectionReader, opts ...metadata.Option) (metadata.Reader, error) {
 		m.mu.Lock()
 		name, ok := m.byGoid[goid()]
@@ -318,8 +344,9 @@ func (m *machine) usable(l layer.Layer, name int) (bool, bool, string) {
 		fileErr = fmt.Errorf("wrong contents")
 	}
 	p := make([]byte, 4)
-	_, blobErr := l.ReadAt(p, 0)
-	if blobErr == nil && !bytes.Equal(p, blobs[name%nlayers][:4]) {
+	bl := blobs[name%nlayers]
+	_, blobErr := l.ReadAt(p, int64(len(bl)-4)) // the footer: fetched by every Resolve, so served from the blob cache
+	if blobErr == nil && !bytes.Equal(p, bl[len(bl)-4:]) {
 		blobErr = fmt.Errorf("wrong blob bytes")
 	}
 	checkErr := l.Check()
@@ -390,16 +417,22 @@ func (m *machine) apply(o Op) {
 		if o.Mp < 0 || o.Mp >= nmps {
 			return
 		}
+		rf := o.Rf
+		if rf == "" {
+			rf = map[bool]string{true: "ok", false: "err"}[o.Ok2]
+		}
 		name, isMounted := m.mounted[o.Mp]
 		m.mu.Lock()
 		if isMounted {
 			m.curImg = name / nlayers
-			m.scripts[name] = []bool{o.Ok1, o.Ok2}
+			m.scripts[name] = []bool{o.Ok1}
+			m.rf = rf
 		}
 		m.mu.Unlock()
 		err := m.f.Check(ctx, mpPath(o.Mp), labelsOf(name))
 		m.mu.Lock()
 		m.scripts = map[int][]bool{}
+		m.rf = ""
 		m.mu.Unlock()
 		ev := "ENone"
 		if err != nil {
@@ -407,20 +440,55 @@ func (m *machine) apply(o Op) {
 		}
 		if isMounted {
 			m.stats["op.check.mounted"]++
-			if (o.Ok1 || o.Ok2) && err != nil {
-				m.problem("Check of mounted layer (mountpoint %d) failed although the registry answered (check ok=%v, refresh ok=%v): %v", o.Mp, o.Ok1, o.Ok2, err)
+			if (o.Ok1 || rf == "ok") && err != nil {
+				m.problem("Check of mounted layer (mountpoint %d) failed although the registry answered (check ok=%v, refresh %s): %v", o.Mp, o.Ok1, rf, err)
 			}
 			if !o.Ok1 {
 				m.stats["op.check.refresh"]++
+				m.stats["op.check.refresh."+rf]++
+				if (rf == "err" || rf == "size") && err == nil {
+					m.problem("Check succeeded although the connectivity check failed and the Refresh had to be refused (%s)", rf)
+				}
+				if rf == "content" && err == nil {
+					m.tainted[name] = true
+				}
 			}
-			if !o.Ok1 && !o.Ok2 {
+			if err != nil {
 				m.stats["result.check.err"]++
 			}
 		} else if err == nil {
 			m.problem("Check of an unregistered mountpoint succeeded")
 		}
 		m.stats["op.check"]++
-		m.record(fmt.Sprintf("COp (FCheck %d %s %s)", o.Mp, hx.CoqBool(o.Ok1), hx.CoqBool(o.Ok2)), ev)
+		m.record(fmt.Sprintf("COp (FCheck %d %s %s)", o.Mp, hx.CoqBool(o.Ok1), map[string]string{"ok": "RfOk", "err": "RfErr", "size": "RfSize", "content": "RfContent"}[rf]), ev)
+	case "probe":
+		if o.Mp < 0 || o.Mp >= nmps {
+			return
+		}
+		l, _ := fs.VerifMountedLayerC12(m.f, mpPath(o.Mp))
+		ev := "EErr"
+		if l != nil {
+			name := m.mounted[o.Mp]
+			bl := blobs[name%nlayers]
+			off := int64((probeFirst + m.probeK[name]) * probeChunk)
+			if off+4 > int64(len(bl))-16*1024 {
+				return
+			}
+			m.probeK[name]++
+			p := make([]byte, 4)
+			_, err := l.ReadAt(p, off)
+			ok := err == nil && bytes.Equal(p, bl[off:off+4])
+			if !ok && !m.tainted[name] {
+				m.problem("mounted layer (mountpoint %d, name %d): a read that has to go to the registry failed or returned other bytes than the blob's (err=%v)", o.Mp, name, err)
+			}
+			if !ok {
+				m.stats["result.probe.fail"]++
+			}
+			ev = fmt.Sprintf("EProbe %s", hx.CoqBool(ok))
+			m.stats["op.probe.mounted"]++
+		}
+		m.stats["op.probe"]++
+		m.record(fmt.Sprintf("COp (FProbe %d)", o.Mp), ev)
 	case "unmount":
 		if o.Mp < 0 || o.Mp >= nmps {
 			return
@@ -503,6 +571,8 @@ func (m *machine) quiesce() {
 	check("after every mount was unmounted and everything expired")
 	m.apply(Op{Op: "mount", Mp: 0, N: 1})
 	m.apply(Op{Op: "use", Mp: 0})
+	m.apply(Op{Op: "check", Mp: 0, Ok1: false, Rf: "size"})
+	m.apply(Op{Op: "probe", Mp: 0})
 	m.apply(Op{Op: "unmount", Mp: 0})
 	for n := 0; n < nlayers; n++ {
 		m.apply(Op{Op: "expl", N: n})
@@ -538,11 +608,11 @@ func gen(r *hx.Rng) Case {
 	n := r.Range(5, 22)
 	for i := 0; i < n; i++ {
 		var o Op
-		switch r.Pick(30, 18, 16, 14, 12, 10) {
+		switch r.Pick(30, 18, 16, 10, 12, 10, 12) {
 		case 0:
 			o = Op{Op: "mount", Mp: r.Intn(nmps), N: r.Pick(4, 3, 2, 2, 1, 1), Scs: [][]bool{genScript(r), genScript(r), genScript(r)}}
 		case 1:
-			o = Op{Op: "check", Mp: r.Intn(nmps), Ok1: r.Chance(1, 2), Ok2: r.Chance(2, 3)}
+			o = Op{Op: "check", Mp: r.Intn(nmps), Ok1: r.Chance(1, 3), Rf: []string{"ok", "err", "size", "content"}[r.Pick(3, 3, 4, 1)]}
 		case 2:
 			o = Op{Op: "unmount", Mp: r.Intn(nmps)}
 		case 3:
@@ -551,6 +621,8 @@ func gen(r *hx.Rng) Case {
 			o = Op{Op: "expl", N: r.Intn(nnames)}
 		case 5:
 			o = Op{Op: "expb", N: r.Intn(nnames)}
+		case 6:
+			o = Op{Op: "probe", Mp: r.Intn(nmps)}
 		}
 		c.Ops = append(c.Ops, o)
 	}
@@ -590,6 +662,14 @@ func main() {
 		// cached neighbour fails its connectivity check at the next Mount: re-resolved while ... ; second image
 		{Ops: []Op{{Op: "mount", Mp: 0, N: 0}, {Op: "mount", Mp: 1, N: 1, Scs: [][]bool{{false, true, true, true}}}, {Op: "use", Mp: 0}, {Op: "use", Mp: 1}, {Op: "mount", Mp: 2, N: 4}, {Op: "unmount", Mp: 1}, {Op: "expl", N: 1}, {Op: "use", Mp: 2}}},
 	}
+	K := func(mp int, ok1 bool, rf string) Op { return Op{Op: "check", Mp: mp, Ok1: ok1, Rf: rf} }
+	P := func(mp int) Op { return Op{Op: "probe", Mp: mp} }
+	corpus = append(corpus,
+		// Check after a failed connectivity check refreshes through the source: refused refreshes (error, other size) leave the mounted layer reading
+		// cached and never-read chunks; an accepted one installs the new fetcher; two mountpoints share the layer
+		Case{Ops: []Op{{Op: "mount", Mp: 0, N: 0}, {Op: "mount", Mp: 1, N: 0}, P(0), K(0, false, "size"), P(0), P(1), {Op: "use", Mp: 1}, K(1, false, "err"), P(1), K(0, false, "ok"), P(0), K(0, true, "size"), K(1, false, "size"), P(0), {Op: "unmount", Mp: 0}, P(1), {Op: "use", Mp: 1}}},
+		Case{Ops: []Op{{Op: "mount", Mp: 2, N: 4}, K(2, false, "content"), P(2), {Op: "use", Mp: 2}, K(2, false, "size"), P(2), K(2, false, "ok"), P(2)}},
+	)
 	for _, c := range corpus {
 		emit(c)
 	}
